@@ -59,9 +59,9 @@ kani_unit("crypto_rp64", "winter-crypto", "crypto/src/hash/rescue/rp64_256/mod.r
     for L in (0, 1, 7, 8, 56, 57, 63)
 ] + [
     H("rp64_merge_is_hash_of_concatenation_contract", ["C11"], ["Rp64_256::merge", "Rp64_256::hash_elements"],
-      "forall digests a, b: merge([a, b]) == hash_elements(a || b)"),
+      "forall digests a, b: merge([a, b]) == hash_elements(a || b)", timeout=900),
     H("rp64_merge_with_int_contract", ["C11"], ["Rp64_256::merge_with_int"],
-      "forall seed, v: u64: merge_with_int(seed, v) == hash_elements(seed || [v]) if v < M else hash_elements(seed || [v mod M, v div M]); the absorbed encoding is injective in v"),
+      "forall seed, v: u64: merge_with_int(seed, v) == hash_elements(seed || [v]) if v < M else hash_elements(seed || [v mod M, v div M]); the absorbed encoding is injective in v", timeout=1200),
     H("rp64_canary_must_fail", ["C11"], [], "false claim: all 3-byte strings hash equally", canary=True),
 ])
 for u in UNITS:
@@ -75,9 +75,9 @@ kani_unit("crypto_rp62", "winter-crypto", "crypto/src/hash/rescue/rp62_248/mod.r
     for L in (0, 1, 7, 8, 56, 57, 63)
 ] + [
     H("rp62_merge_is_hash_of_concatenation_contract", ["C11"], ["Rp62_248::merge", "Rp62_248::hash_elements"],
-      "forall digests a, b: merge([a, b]) == hash_elements(a || b)"),
+      "forall digests a, b: merge([a, b]) == hash_elements(a || b)", timeout=900),
     H("rp62_merge_with_int_contract", ["C11"], ["Rp62_248::merge_with_int"],
-      "forall seed, v: u64: merge_with_int(seed, v) == hash_elements(seed || [v]) if v < M else hash_elements(seed || [v mod M, v div M]); the absorbed encoding is injective in v"),
+      "forall seed, v: u64: merge_with_int(seed, v) == hash_elements(seed || [v]) if v < M else hash_elements(seed || [v mod M, v div M]); the absorbed encoding is injective in v", timeout=1200),
     H("rp62_canary_must_fail", ["C11"], [], "false claim: all 3-byte strings hash equally", canary=True),
 ])
 for u_ in UNITS:
